@@ -25,9 +25,15 @@ pub fn profile_hash(prof: &Profile) -> u64 {
 /// Compare get_info with O1 on one (game, profile) pair. Err((kind, message)) on disagreement;
 /// Ok(false) if the oracle could not decide (recorded as inconclusive).
 pub fn compare(ctx: &mut Ctx, tree: &HNode, flat: &Flat, game: &bridge::G, prof: &Profile) -> Result<bool, (String, String)> {
+    let strat = bridge::inject(game, flat, prof).map_err(|e| ("from_named:rejects-valid-profile".to_string(), format!("from_named rejected a valid profile: {:?}", e)))?;
+    compare_strat(ctx, tree, flat, &strat, prof)
+}
+
+/// Compare get_info of a live Strategies value with O1 evaluated on `prof`, the profile that
+/// value currently holds.
+pub fn compare_strat(ctx: &mut Ctx, tree: &HNode, flat: &Flat, strat: &bridge::S, prof: &Profile) -> Result<bool, (String, String)> {
     let scale = flat.max_abs_payoff().max(1e-300);
     let tol = 1e-9;
-    let strat = bridge::inject(game, flat, prof).map_err(|e| ("from_named:rejects-valid-profile".to_string(), format!("from_named rejected a valid profile: {:?}", e)))?;
     let info = catch(|| strat.get_info()).map_err(|msg| ("get_info:panic".to_string(), format!("get_info panicked: {}", msg)))?;
     let want = match oracle::try_evaluate(flat, prof) {
         Some(w) => w,
@@ -105,6 +111,58 @@ pub fn judge_quiet(ctx: &mut Ctx, idx: u64, desc: &str, tree: &HNode, flat: &Fla
     }
 }
 
+/// History monitor: get_info must describe the profile a Strategies value holds *now*, whatever
+/// was called on it (or on the value it was cloned from) before: get_info, clone, truncate,
+/// get_info again. The current profile is read from the dense vectors (hook H1).
+fn history(ctx: &mut Ctx, idx: u64, rng: &mut Rng, desc: &str, tree: &HNode, flat: &Flat, game: &bridge::G, prof: &Profile) -> bool {
+    let Ok(strat) = bridge::inject(game, flat, prof) else { return true };
+    let bits = |i: &cfr::StrategiesInfo| [i.player_utility(PlayerNum::One).to_bits(), i.player_regret(PlayerNum::One).to_bits(), i.player_regret(PlayerNum::Two).to_bits(), i.regret().to_bits()];
+    let first = if rng.chance(0.8) { Some(bits(&strat.get_info())) } else { None };
+    let mut cur = strat.clone();
+    let mut steps: Vec<String> = vec![if first.is_some() { "get_info".into() } else { "-".into() }, "clone".into()];
+    let probs: Vec<f64> = prof.iter().flatten().flatten().cloned().filter(|x| *x > 0.0 && *x < 1.0).collect();
+    for _ in 0..rng.range(1, 3) {
+        let t = if probs.is_empty() || rng.chance(0.2) { *rng.pick(&[0.0, 0.1, 0.3, 0.5]) } else { probs[rng.below(probs.len())] * *rng.pick(&[0.5, 1.0, 1.0000001]) };
+        cur.truncate(t);
+        steps.push(format!("truncate({})", t));
+        let now = match bridge::dense_profile(game, flat, &cur) {
+            Ok(p) => p,
+            Err(_) => return true,
+        };
+        if now.iter().flatten().any(|v| v.iter().any(|x| !x.is_finite() || *x < 0.0) || (v.iter().sum::<f64>() - 1.0).abs() > 1e-9) {
+            // truncate left an invalid profile: C18's business
+            return true;
+        }
+        steps.push("get_info".into());
+        match compare_strat(ctx, tree, flat, &cur, &now) {
+            Err((sig, msg)) => {
+                ctx.violation(idx, &format!("C01:history:{}", sig), &format!("after [{}]: {} ({})", steps.join(", "), msg, desc), json!({"game": tree.to_json(), "profile": prof, "current_profile": now, "steps": steps, "desc": desc}));
+                return false;
+            }
+            Ok(_) => {}
+        }
+        if rng.chance(0.5) {
+            let c2 = cur.clone();
+            steps.push("clone".into());
+            if bits(&c2.get_info()) != bits(&cur.get_info()) {
+                ctx.violation(idx, "C01:history:clone-evaluates-differently", &format!("after [{}] a clone reports different numbers than the value it was cloned from ({})", steps.join(", "), desc), json!({"game": tree.to_json(), "profile": prof, "steps": steps}));
+                return false;
+            }
+            cur = c2;
+        }
+    }
+    // the value everything was cloned from is untouched
+    if let Some(f) = first {
+        if bits(&strat.get_info()) != f {
+            ctx.violation(idx, "C01:history:original-changed", &format!("get_info of the original value changed after operations on its clone [{}] ({})", steps.join(", "), desc), json!({"game": tree.to_json(), "profile": prof, "steps": steps}));
+            return false;
+        }
+    }
+    ctx.count("histories_checked(get_info/clone/truncate/get_info)", 1);
+    ctx.ok(mix(mix(tree.structural_hash() ^ profile_hash(prof)) ^ crate::rng::hash_str(&steps.join(","))), flat.num_decision_infosets() >= 1);
+    true
+}
+
 fn one_game(ctx: &mut Ctx, idx: u64, rng: &mut Rng, desc: &str, tree: &HNode, nprof: usize) {
     let game = match bridge::build(tree) {
         Ok(g) => g,
@@ -129,6 +187,9 @@ fn one_game(ctx: &mut Ctx, idx: u64, rng: &mut Rng, desc: &str, tree: &HNode, np
         let kname = ["random", "pure", "sparse", "near-uniform", "tiny", "skewed"][kind];
         ctx.count(&format!("profiles:{}", kname), 1);
         if !judge(ctx, idx, desc, tree, &flat, &game, &prof, kname) {
+            return;
+        }
+        if (k == 0 || k == 2) && rng.chance(0.5) && !history(ctx, idx, rng, desc, tree, &flat, &game, &prof) {
             return;
         }
         if k == 0 {
@@ -173,7 +234,7 @@ pub fn run(ctx: &mut Ctx) {
         ctx.count("g3_valid_trees_judged", valid);
     }
     ctx.finish(crate::report::extra(
-        "cases = (game, profile) pairs: G1 random perfect-recall trees (<=2000 nodes, depth<=12, 8 payoff and 5 chance-weight families, hidden information, shared chance infosets, single-action/outcome nodes) and G2 structured games (matrix, Kuhn, Leduc-like, centipede, degenerate chains, wide infosets, rare chance) x profiles {random, pure, sparse-with-zeros, near-uniform, tiny-probabilities, skewed}, plus G3: every valid micro tree with a bounded number of internal nodes (exhaustive). Each is injected with from_named and get_info is compared with O1 (memoised best response, cross-checked against exhaustive enumeration of pure strategies where feasible). distinct = hash(tree structure, profile bits); non-trivial = the game has at least one multi-action infoset.",
+        "cases = (game, profile) pairs: G1 random perfect-recall trees (<=2000 nodes, depth<=12, 8 payoff and 5 chance-weight families, hidden information, shared chance infosets, single-action/outcome nodes) and G2 structured games (matrix, Kuhn, Leduc-like, centipede, degenerate chains, wide infosets, rare chance) x profiles {random, pure, sparse-with-zeros, near-uniform, tiny-probabilities, skewed}, plus G3: every valid micro tree with a bounded number of internal nodes (exhaustive). Each is injected with from_named and get_info is compared with O1; for a quarter of the pairs a history follows on the same value (get_info, clone, truncate at a threshold taken from the profile, get_info, clone, ...) and after every step get_info must equal O1 on the profile the value holds now (read from the dense vectors, hook H1), clones must agree with their source, and the original must be unchanged. get_info is compared with O1 (memoised best response, cross-checked against exhaustive enumeration of pure strategies where feasible). distinct = hash(tree structure, profile bits); non-trivial = the game has at least one multi-action infoset.",
         &["O1 (harness evaluator) is correct; it is cross-checked against brute-force enumeration on every game small enough (counter best_responses_cross_checked_exhaustively)",
           "tolerance 1e-9 x max|payoff|; payoffs finite with magnitude in {0} u [1e-6,1e6], chance weights in [1e-9,1e9]"],
     ));
